@@ -4,6 +4,7 @@ import (
 	"fmt"
 	"go/constant"
 	"go/types"
+	"os"
 	"strconv"
 	"strings"
 
@@ -42,6 +43,7 @@ type SpecEnv struct {
 	Results []TVal
 	LoopPhis    map[ssa.Value]Val // header phis of the enclosing loop at loop entry (for oldloop)
 	PhiOverride map[ssa.Value]Val
+	inPattern   bool // evaluating a quantifier trigger: map reads without the in-domain guard (no ite in patterns)
 }
 
 type specErr struct{ msg string }
@@ -108,6 +110,17 @@ func (env *SpecEnv) evalConjuncts(e SExpr) []Term {
 	case SBinary:
 		if x.Op == "&&" {
 			return append(env.evalConjuncts(x.X), env.evalConjuncts(x.Y)...)
+		}
+		if x.Op == "==>" {
+			// A ==> (B && C) is reported as A ==> B and A ==> C
+			if parts := env.evalConjuncts(x.Y); len(parts) > 1 {
+				a := env.boolT(x.X)
+				var out []Term
+				for _, p := range parts {
+					out = append(out, Implies(a, p))
+				}
+				return out
+			}
 		}
 	case SCall:
 		fc := env.FC
@@ -590,6 +603,9 @@ func (env *SpecEnv) binary(x SBinary) TVal {
 		}
 		if _, ok := s.Ty.Underlying().(*types.Map); ok {
 			dh, _, _ := env.FC.mapHeaps(s.Ty)
+			if env.inPattern {
+				return TVal{T: Select(Select(env.FC.heapGet(env.Cur, dh), s.T), k.T), Ty: tBool}
+			}
 			return TVal{T: And(Not(Eq(s.T, IntLit(0))), Select(Select(env.FC.heapGet(env.Cur, dh), s.T), k.T)), Ty: tBool}
 		}
 		env.fail("'in' needs a set or map")
@@ -728,6 +744,10 @@ func (env *SpecEnv) index(v, i TVal) TVal {
 		p := &Ptr{Root: RElem, Ref: app(SInt, "sl_arr", v.T), Off: app(SInt, "sl_off", v.T), Idx: fc.toInt(i.T), Elem: t.Elem()}
 		return derefLoc(TVal{T: fc.loadPtr(env.Cur, p), Ty: t.Elem(), P: p})
 	case *types.Map:
+		if env.inPattern {
+			_, vh, _ := fc.mapHeaps(v.Ty)
+			return TVal{T: Select(Select(fc.heapGet(env.Cur, vh), v.T), i.T), Ty: t.Elem()}
+		}
 		val, _ := fc.mapLookup(env.Cur, v.T, i.T, v.Ty)
 		return TVal{T: val, Ty: t.Elem()}
 	}
@@ -770,8 +790,10 @@ func (env *SpecEnv) quant(q SQuant) TVal {
 	var pats []string
 	for _, tr := range q.Trig {
 		var ts []string
+		pn := *n
+		pn.inPattern = os.Getenv("VCGO_RAWPAT") != "0"
 		for _, e := range tr {
-			ts = append(ts, n.eval(e).T.S)
+			ts = append(ts, pn.eval(e).T.S)
 		}
 		pats = append(pats, ":pattern ("+strings.Join(ts, " ")+")")
 	}
@@ -811,6 +833,18 @@ func (env *SpecEnv) inState(name string) *SpecEnv {
 		env.fail("no %q state available here", name)
 	}
 	n := env.with(st)
+	if n.Named == nil {
+		n.Named = map[string]*State{}
+	}
+	if _, ok := env.Named["$now"]; !ok {
+		// remember the state old(...) was entered from, for now(...)
+		nm := map[string]*State{}
+		for k, v := range env.Named {
+			nm[k] = v
+		}
+		nm["$now"] = env.Cur
+		n.Named = nm
+	}
 	if name == "loop" {
 		// loop-carried variables denote their values at loop entry
 		n.PhiOverride = env.LoopPhis
@@ -836,6 +870,15 @@ func (env *SpecEnv) call(c SCall) TVal {
 	case "oldloop":
 		argN(1)
 		return env.inState("loop").eval(c.Args[0])
+	case "now":
+		// now(e) inside old(...): e in the state old(...) was written in (e.g. a local slice built since)
+		argN(1)
+		if st := env.Named["$now"]; st != nil {
+			n := env.with(st)
+			n.PhiOverride = nil
+			return n.eval(c.Args[0])
+		}
+		return env.eval(c.Args[0])
 	case "atlock":
 		argN(1)
 		return env.inState("lock").eval(c.Args[0])
